@@ -33,6 +33,17 @@ for tc in ET.parse(out).getroot().iter("testcase"):
         passed.add("%s::%s" % (tc.get("classname"), tc.get("name")))
 os.unlink(out)
 missing = sorted(want - passed)
+# tests/porcelain/__init__.py holds 566 unittest cases that pytest does not collect (the file is not named test_*.py);
+# they pass on the pinned tree and are part of the project's suite, so a repair must keep them green as well
+if not extra:
+    q = subprocess.run(["/venv/bin/python", "-m", "unittest", "tests.porcelain"], cwd=d, env=env, capture_output=True, text=True)
+    tail = (q.stderr.strip().splitlines() or ["?"])[-1]
+    if q.returncode != 0:
+        bad = [l for l in q.stderr.splitlines() if l.startswith(("FAIL:", "ERROR:"))]
+        print("unittest tests.porcelain:", tail)
+        for l in bad[:20]:
+            print("  NOT-PASSING (unittest):", l)
+        missing += bad or ["tests.porcelain (unittest run failed)"]
 print("stable_pass=%d passed_now=%d missing=%d" % (len(want), len(passed & want), len(missing)))
 for m in missing[:40]:
     print("  NOT-PASSING:", m)
